@@ -14,6 +14,7 @@ PoolMat    == << [k |-> "U", es |-> <<2, 3>>], [k |-> "U", es |-> <<3>>], [k |->
 PoolMat22  == << [k |-> "U", es |-> <<2, 2>>], [k |-> "U", es |-> <<2>>], [k |-> "A", es |-> <<2>>] >>
 PoolScal   == << [k |-> "U", es |-> <<>>], [k |-> "U", es |-> <<3>>], [k |-> "A", es |-> <<>>] >>
 Pool3D     == << [k |-> "U", es |-> <<2, 1, 2>>], [k |-> "U", es |-> <<2>>] >>
+PoolRect   == << [k |-> "U", es |-> <<2, 4>>], [k |-> "U", es |-> <<4, 2>>], [k |-> "U", es |-> <<3, 1>>] >>      \* wide / tall (rows >= columns + 2)
 PoolVec4   == << [k |-> "U", es |-> <<4>>], [k |-> "U", es |-> <<2>>], [k |-> "A", es |-> <<2>>] >>
 
 \* ---- pools with complex members (only meaningful in the complex instance MC_CUTPM)
